@@ -442,11 +442,69 @@ Definition bobs_eqb (a b : bobs) : bool :=
   (bo_len a =? bo_len b) &&
   match bo_diff a, bo_diff b with None, None => true | Some x, Some y => x =? y | _, _ => false end &&
   list_beq N.eqb (bo_head a) (bo_head b) && list_beq N.eqb (bo_tail a) (bo_tail b).
+
+(* ================= a backend that dies MID-BODY (kind retrymid) =================
+   bufferedBody is a bytes.Reader over the buffered request body: Len() is the number of UNREAD
+   bytes, rewind() seeks to offset 0.  One iteration of the retry loop of Proxy.ServeHTTP on a
+   buffered body: rewind, then the attempt's backend reads k bytes (None: to EOF) of what is sent
+   with the announced outreq.ContentLength, which the loop never touches.  [len_before_rewind] is the
+   variant that announces bb.Len() taken BEFORE the rewind (for the nonvacuity example). *)
+Record rdr := mk_rdr { rd_data : list N; rd_off : nat }.
+Definition rd_unread (r : rdr) : nat := (length (rd_data r) - rd_off r)%nat.
+Definition rd_rewind (r : rdr) : rdr := mk_rdr (rd_data r) 0.
+Definition rd_read (r : rdr) (k : option nat) : list N * rdr :=
+  let rest := skipn (rd_off r) (rd_data r) in
+  let got := match k with None => rest | Some k => firstn k rest end in
+  (got, mk_rdr (rd_data r) (rd_off r + length got)).
+Definition mid_attempt (len_before_rewind : bool) (cl : Z) (r : rdr) (k : option nat)
+  : (Z * list N) * (Z * rdr) :=
+  let cl' := if len_before_rewind then Z.of_nat (rd_unread r) else cl in
+  let '(got, r') := rd_read (rd_rewind r) k in
+  ((cl', got), (cl', r')).
+Fixpoint mid_run (lbr : bool) (cl : Z) (r : rdr) (ks : list (option nat)) : list (Z * list N) :=
+  match ks with
+  | [] => []
+  | k :: rest => let '(o, (cl', r')) := mid_attempt lbr cl r k in o :: mid_run lbr cl' r' rest
+  end.
+(* what an attempt that asks for k bytes must get of [data] *)
+Definition mid_expect (data : list N) (k : option nat) : list N :=
+  match k with None => data | Some k => firstn k data end.
+(* observed attempt: bytes its backend asked for before failing (-1: to EOF, then it answers), what it
+   could read, the Content-Length announced to it, scripted failure? *)
+Record rmatt := mk_rmatt { rm_asked : Z; rm_body : bobs; rm_cl : Z; rm_failed : bool }.
+Definition rm_eff (len : N) (asked : Z) : N := if (asked <? 0)%Z then len else N.min (Z.to_N asked) len.
+Definition rm_k (asked : Z) : option nat := if (asked <? 0)%Z then None else Some (Z.to_nat asked).
+Fixpoint first_diff (l : list N) (salt off : N) : option N :=
+  match l with
+  | [] => None
+  | c :: r => if c =? pat_byte salt off then first_diff r salt (off + 1) else Some off
+  end.
+Definition describe_pat (salt : N) (l : list N) : bobs :=
+  let n := N.of_nat (length l) in
+  let h := N.to_nat (N.min n window) in
+  mk_bobs n (first_diff l salt 0) (firstn h l) (skipn (length l - h) l).
+Definition MID_SMALL : N := 600.
+(* the model's attempts: (announced Content-Length, descriptor of the bytes read); the byte strings
+   themselves for small bodies, their descriptors (C05_retry_announces_full_length) for large ones *)
+Definition mid_model (salt len : N) (cl0 : Z) (asks : list Z) : list (Z * bobs) :=
+  if len <=? MID_SMALL
+  then map (fun o : Z * list N => (fst o, describe_pat salt (snd o)))
+           (mid_run false cl0 (mk_rdr (pat_range salt 0 (N.to_nat len)) 0) (map rm_k asks))
+  else map (fun a => (cl0, desc_of_pat salt (rm_eff len a))) asks.
+Fixpoint fails_then_ok (l : list bool) : bool :=
+  match l with
+  | [] => false
+  | [f] => negb f
+  | f :: r => f && fails_then_ok r
+  end.
 (* one request of a concurrent schedule: body pattern, number of first attempts that fail *)
 Record rcreq := mk_rcreq { rc_salt : N; rc_len : N; rc_fails : nat }.
 Record rcatt := mk_rcatt { rca_host : nat; rca_body : bobs }.
 Record rcobs := mk_rcobs { rco_atts : list rcatt; rco_status : N; rco_ret : N }.
 
+(* one request of a sequence: absolute start tick, Fails of every host read at the start, the
+   events and the outcome (ticks relative to the start), Fails read when it returned *)
+Record sreq := mk_sreq { sq_start : N; sq_f0 : list Z; sq_obs : list tev; sq_out : tout; sq_f1 : list Z }.
 Inductive case :=
 (* direct call of an exported policy type: pool, max_fails (1 = default CheckDown=nil), observed index *)
 | CPolicy (p : pol) (mf : Z) (pool : list host) (obs : option nat)
@@ -471,7 +529,17 @@ Inductive case :=
 | CRRBlocks (avs : list (list bool)) (sched : list nat) (obs : list (option nat))
 (* concurrent schedule through one proxy (retries on): per request its body pattern and number of
    failing first attempts; observed: every attempt (host, body bytes as received), status *)
-| CRetryConc (nhosts : nat) (reqs : list (rcreq * rcobs)).
+| CRetryConc (nhosts : nat) (reqs : list (rcreq * rcobs))
+(* ONE request (pattern body, Content-Length or chunked) through a proxy with retries whose first
+   attempts hit backends that read k bytes of the body and die (scripted transport, or the real
+   http.Transport against loopback backends that reset the connection): per attempt what it was
+   announced and what it could read *)
+| CRetryMid (wire : bool) (salt len : N) (chunked : bool) (atts : list rmatt) (status ret : N)
+(* several requests, one after the other, through ONE proxy (timed machinery, the hosts' fault
+   scripts go on from request to request): per request its start, Fails of every host at the start
+   and at the end, events and outcome; Fails read once more at fin_t *)
+| CRetrySeq (p : pol) (c : tcfg) (unhl : list bool) (scripts : list script) (reqs : list sreq)
+            (fin_t : N) (fin_f : list Z).
 
 Definition pol_select (p : pol) (mf : Z) (pool : list host) : option (option nat) :=
   let av := avail_vec mf pool in
@@ -594,6 +662,112 @@ Definition dmax_of (n : nat) (scr : nat -> script) : N :=
   fold_left N.max (flat_map (fun i => adur (sdflt (scr i)) :: map adur (spre (scr i))) (seq 0 n)) 0.
 Definition is_answered (o : tout) : bool := match o with TAnswered _ _ => true | _ => false end.
 
+(* the timed retry loop of ONE request: (model = observation, executable spec on the observation) *)
+Definition retryT_eval (p : pol) (c : tcfg) (unhl : list bool) (scripts : list script) (envl : list (list bool))
+           (fx0l : list (list N)) (obs : list tev) (obs_out : tout) : bool * bool :=
+      let n := t_n c in
+      let unh := fun i => nth i unhl true in
+      let scr := fun i => nth i scripts (mk_script [] (mk_astep KFailBefore 0)) in
+      let env := fun it i => nth i (nth it envl []) false in
+      let det := match p with PFirst | PRoundRobin _ | PHash _ | PHeaderValue _ => true | _ => false end in
+      let st0 := match p with PRoundRobin r => r | _ => 0 end in
+      let fuel := (N.to_nat (t_td c / t_ti c) + 3)%nat in
+      let fx0 := fun i => nth i fx0l [] in
+      let '(out, tr) := runT N (sel_of p) c unh scr env fuel 0 fx0 (fun _ => 0%nat) st0 true 0 in
+      let agree := negb det || (list_beq tev_eqb tr obs && tout_eqb out obs_out) in
+      let dmax := dmax_of n scr in
+      let env_clear g := forallb (fun row => negb (nth g row false)) envl in
+      let spec :=
+        trace_wf scr (fun _ => 0%nat) 0 obs &&
+        (* failed hosts are skipped until their failure expires; Select finds a host whenever one is available *)
+        skip_ok (t_mf c) (t_ft c) fx0 obs &&
+        none_ok n (t_mf c) (t_ft c) unh env 0 fx0 obs &&
+        (* every attempt receives the complete original body, whatever the pool size and the
+           configuration (without retries there is only one attempt) *)
+        bodies_ok obs &&
+        (* 200 only from a successful forward to a host that is not unhealthy, 502 only after failures *)
+        answered_ok n unh obs obs_out &&
+        (* a healthy backend exists and the budget covers the others => answered *)
+        (negb (existsb (fun g => reach_hyp c unh scr g dmax && env_clear g && (live 0 (fx0 g) <? t_mf c)) (seq 0 n)) ||
+         is_answered obs_out) &&
+        (* 502 only once the duration is spent; and when nobody can succeed, 502 within the bound *)
+        match obs_out with T502 t => t_td c <=? t | THang => false | TAnswered _ _ => true end &&
+        (negb (never_ok n scr && (0 <? t_ti c)) ||
+         match obs_out with T502 t => t <? t_td c + t_ti c + dmax | _ => false end) in
+      (agree, spec).
+
+(* ================= several requests over time through one proxy (kind retryseq) =================
+   Fails of a host as the code keeps it: an integer incremented by every failed forward, and one
+   timer per failure that decrements it fail_timeout later; a successful forward does not touch it.
+   [reset_on_succ] is the variant in which a success stores 0 (for the nonvacuity example). *)
+Inductive fev := FFail (te : N) | FSucc (t : N) | FRead (t : N).
+Record fcs := mk_fcs { f_cnt : Z; f_pend : list N }.
+Definition fire (now : N) (s : fcs) : fcs :=
+  mk_fcs (f_cnt s - Z.of_nat (length (filter (fun x => x <=? now) (f_pend s))))
+         (filter (fun x => now <? x) (f_pend s)).
+Definition fstep (reset_on_succ : bool) (ft : N) (s : fcs) (e : fev) : fcs :=
+  match e with
+  | FFail te => let s' := fire te s in
+                if 0 <? ft then mk_fcs (f_cnt s' + 1) ((te + ft) :: f_pend s') else s'
+  | FSucc t => let s' := fire t s in
+               if reset_on_succ && (0 <? f_cnt s')%Z then mk_fcs 0 (f_pend s') else s'
+  | FRead t => fire t s
+  end.
+Definition frun (reset_on_succ : bool) (ft : N) (evs : list fev) : fcs :=
+  fold_left (fstep reset_on_succ ft) evs (mk_fcs 0 []).
+(* all expiry times of the failures in a history *)
+Definition fexp (ft : N) (evs : list fev) : list N :=
+  flat_map (fun e => match e with FFail te => if 0 <? ft then [te + ft] else [] | _ => [] end) evs.
+
+Definition tout_time (o : tout) : N := match o with TAnswered _ t | T502 t => t | THang => 0 end.
+Definition ev_uses (i : nat) (e : tev) : bool :=
+  match e with EAttempt _ j _ _ _ _ | ERefused _ j => Nat.eqb i j | ENone _ => false end.
+(* the history of host i told by a request's events: failed and successful forwards, absolute time *)
+Definition ev_fevs (start : N) (i : nat) (tr : list tev) : list fev :=
+  flat_map (fun e => match e with
+                     | EAttempt _ j _ _ ok te =>
+                         if Nat.eqb i j then [if ok then FSucc (start + te) else FFail (start + te)] else []
+                     | _ => [] end) tr.
+Definition script_drop (k : nat) (s : script) : script := mk_script (skipn k (spre s)) (sdflt s).
+(* unexpired failures at [start], as expiry times relative to it *)
+Definition rel_exp (start : N) (l : list N) : list N :=
+  map (fun x => x - start) (filter (fun x => start <? x) l).
+Definition zlist_eqb (a b : list Z) : bool := list_beq Z.eqb a b.
+Definition ftime (e : fev) : N := match e with FFail t | FSucc t | FRead t => t end.
+(* the history is told in the order of time *)
+Fixpoint fmono (last : N) (evs : list fev) : bool :=
+  match evs with [] => true | e :: r => (last <=? ftime e) && fmono (ftime e) r end.
+Fixpoint flast (last : N) (evs : list fev) : N :=
+  match evs with [] => last | e :: r => flast (ftime e) r end.
+(* hist: per host the history so far (oldest first); used: forwards/refusals each host's script has played *)
+Fixpoint seq_eval (p : pol) (c : tcfg) (unhl : list bool) (scripts : list script)
+         (hist : list (list fev)) (used : list nat) (reqs : list sreq) : bool * bool :=
+  match reqs with
+  | [] => (true, true)
+  | r :: rest =>
+      let hosts := seq 0 (t_n c) in
+      let ft := t_ft c in
+      let start := sq_start r in
+      let tend := start + tout_time (sq_out r) in
+      let scr' := map (fun i => script_drop (nth i used 0%nat) (nth i scripts (mk_script [] (mk_astep KFailBefore 0)))) hosts in
+      let fx0l := map (fun i => rel_exp start (fexp ft (nth i hist []))) hosts in
+      let '(a, s) := retryT_eval p c unhl scr' [] fx0l (sq_obs r) (sq_out r) in
+      let hist' := map (fun i => nth i hist [] ++ ev_fevs start i (sq_obs r)) hosts in
+      let used' := map (fun i => (nth i used 0 + length (filter (ev_uses i) (sq_obs r)))%nat) hosts in
+      (* model: the counter with its timers; spec: Fails = number of unexpired failures (never negative) *)
+      let a_f := zlist_eqb (sq_f0 r) (map (fun i => f_cnt (fire start (frun false ft (nth i hist [])))) hosts) &&
+                 zlist_eqb (sq_f1 r) (map (fun i => f_cnt (fire tend (frun false ft (nth i hist' [])))) hosts) in
+      let s_f := zlist_eqb (sq_f0 r) (map (fun i => Z.of_N (live start (fexp ft (nth i hist [])))) hosts) &&
+                 zlist_eqb (sq_f1 r) (map (fun i => Z.of_N (live tend (fexp ft (nth i hist' [])))) hosts) in
+      let '(a', s') := seq_eval p c unhl scripts hist' used' rest in
+      (a && a_f && a', s && s_f && s')
+  end.
+Fixpoint seq_hist (c : tcfg) (hist : list (list fev)) (reqs : list sreq) : list (list fev) :=
+  match reqs with
+  | [] => hist
+  | r :: rest => seq_hist c (map (fun i => nth i hist [] ++ ev_fevs (sq_start r) i (sq_obs r)) (seq 0 (t_n c))) rest
+  end.
+
 Definition judge (c : case) : N :=
   match c with
   | CPolicy p mf pool obs | CStatic p mf pool obs =>
@@ -660,36 +834,19 @@ Definition judge (c : case) : N :=
          forallb (fun j => Nat.eqb (count j) k) (seq 0 n)) in
       verdict agree spec
   | CRetryT p c unhl scripts envl fx0l obs obs_out =>
-      let n := t_n c in
-      let unh := fun i => nth i unhl true in
-      let scr := fun i => nth i scripts (mk_script [] (mk_astep KFailBefore 0)) in
-      let env := fun it i => nth i (nth it envl []) false in
-      let det := match p with PFirst | PRoundRobin _ | PHash _ | PHeaderValue _ => true | _ => false end in
-      let st0 := match p with PRoundRobin r => r | _ => 0 end in
-      let fuel := (N.to_nat (t_td c / t_ti c) + 3)%nat in
-      let fx0 := fun i => nth i fx0l [] in
-      let '(out, tr) := runT N (sel_of p) c unh scr env fuel 0 fx0 (fun _ => 0%nat) st0 true 0 in
-      let agree := negb det || (list_beq tev_eqb tr obs && tout_eqb out obs_out) in
-      let dmax := dmax_of n scr in
-      let env_clear g := forallb (fun row => negb (nth g row false)) envl in
-      let spec :=
-        trace_wf scr (fun _ => 0%nat) 0 obs &&
-        (* failed hosts are skipped until their failure expires; Select finds a host whenever one is available *)
-        skip_ok (t_mf c) (t_ft c) fx0 obs &&
-        none_ok n (t_mf c) (t_ft c) unh env 0 fx0 obs &&
-        (* every attempt receives the complete original body, whatever the pool size and the
-           configuration (without retries there is only one attempt) *)
-        bodies_ok obs &&
-        (* 200 only from a successful forward to a host that is not unhealthy, 502 only after failures *)
-        answered_ok n unh obs obs_out &&
-        (* a healthy backend exists and the budget covers the others => answered *)
-        (negb (existsb (fun g => reach_hyp c unh scr g dmax && env_clear g && (live 0 (fx0 g) <? t_mf c)) (seq 0 n)) ||
-         is_answered obs_out) &&
-        (* 502 only once the duration is spent; and when nobody can succeed, 502 within the bound *)
-        match obs_out with T502 t => t_td c <=? t | THang => false | TAnswered _ _ => true end &&
-        (negb (never_ok n scr && (0 <? t_ti c)) ||
-         match obs_out with T502 t => t <? t_td c + t_ti c + dmax | _ => false end) in
+      let '(agree, spec) := retryT_eval p c unhl scripts envl fx0l obs obs_out in
       verdict agree spec
+  | CRetrySeq p c unhl scripts reqs fin_t fin_f =>
+      let hosts := seq 0 (t_n c) in
+      let '(agree, spec) := seq_eval p c unhl scripts (map (fun _ => []) hosts) (map (fun _ => 0%nat) hosts) reqs in
+      let hist := seq_hist c (map (fun _ => []) hosts) reqs in
+      (* every request by itself given the history, Fails at every reading, and times in order *)
+      let ordered := (fix go (last : N) (l : list sreq) : bool :=
+                        match l with [] => last <=? fin_t
+                        | r :: rest => (last <=? sq_start r) && go (sq_start r + tout_time (sq_out r)) rest end) 0 reqs in
+      verdict (agree && zlist_eqb fin_f (map (fun i => f_cnt (fire fin_t (frun false (t_ft c) (nth i hist [])))) hosts))
+              (spec && ordered &&
+               zlist_eqb fin_f (map (fun i => Z.of_N (live fin_t (fexp (t_ft c) (nth i hist [])))) hosts))
   | CRRBlocks avs sched obs =>
       let agree := list_beq opt_nat_eqb (rrb_run avs (map (fun _ => 0) avs) sched) obs in
       (* fairness PER BLOCK, on the block's own requests *)
@@ -710,5 +867,20 @@ Definition judge (c : case) : N :=
                    Nat.eqb (length (rco_atts o)) (Datatypes.S (rc_fails r)) &&
                    forallb (fun a => Nat.ltb (rca_host a) nhosts && own_bytes (rca_body a) (rc_salt r) (rc_len r)) (rco_atts o) &&
                    (rco_status o =? 200) && (rco_ret o =? 0)) reqs in
+      verdict agree spec
+  | CRetryMid wire salt len chunked atts status ret =>
+      let cl0 := if chunked then (-1)%Z else Z.of_N len in
+      let agree :=
+        list_beq (fun a b : Z * bobs => (fst a =? fst b)%Z && bobs_eqb (snd a) (snd b))
+                 (map (fun a => (rm_cl a, rm_body a)) atts) (mid_model salt len cl0 (map rm_asked atts)) &&
+        (status =? 200) in
+      (* EVERY attempt - the first and each retry, whatever the earlier backends consumed - is
+         announced the complete length and can read the original bytes from offset 0; the request is
+         answered by the backend that is up *)
+      let spec :=
+        fails_then_ok (map rm_failed atts) &&
+        forallb (fun a => own_bytes (rm_body a) salt (rm_eff len (rm_asked a))) atts &&
+        forallb (fun a => if chunked then (rm_cl a <=? 0)%Z else (rm_cl a =? Z.of_N len)%Z) atts &&
+        (status =? 200) && (ret =? 0) in
       verdict agree spec
   end.
